@@ -47,6 +47,13 @@ func (k Keeper) ApplyAndReturnValidatorSetUpdates(ctx context.Context) ([]abci.V
 
 		// zero power validator removed from validator set
 		if newPower <= 0 {
+			// a validator that was never bonded is not in the last validator set,
+			// so it would never be purged below; remove it here.
+			if !found {
+				if err := k.RemoveValidator(ctx, valAddr); err != nil {
+					return nil, err
+				}
+			}
 			continue
 		}
 
